@@ -308,7 +308,7 @@ def gen_storecli(rng) -> Case:
 def generate(ctx, budget):
     rng = ctx.rng
     out = []
-    n_cli = 10 if ctx.tier == "quick" else 120
+    n_cli = 10 if ctx.tier == "quick" else 80
     for i in range(budget):
         r = rng.random()
         if i < 256 or r < 0.15:
@@ -353,7 +353,7 @@ def spec() -> Spec:
         generate=generate,
         extract=extract,
         nontrivial=nontrivial,
-        budget={"quick": 600, "thorough": 12000},
+        budget={"quick": 600, "thorough": 8000},
         search_budget={"quick": 1500, "thorough": 20000},
         divergence_is_violation=True,
         per_case_timeout=60.0,
